@@ -172,13 +172,13 @@ func dedupeIneq(in []ineq) []ineq {
 // ---------------------------------------------------------------------------
 
 type safety struct {
-	p      *core.Prog
-	fns    map[*ssa.Function]bool
-	atoms  map[ssa.Value]string
-	nAtom  int
-	defs   map[string][]ineq // facts attached to an atom
-	loadCl map[ssa.Value]ssa.Value
-	inv    map[*ssa.Phi][]ssa.Value // proven upper bounds: phi <= len/val
+	p       *core.Prog
+	fns     map[*ssa.Function]bool
+	atoms   map[ssa.Value]string
+	nAtom   int
+	defs    map[string][]ineq // facts attached to an atom
+	loadCl  map[ssa.Value]ssa.Value
+	inv     map[*ssa.Phi][]ssa.Value // proven upper bounds: phi <= len/val
 	paramLB map[*ssa.Parameter]int64
 	resLB   map[*ssa.Function]int64
 	modset  map[*ssa.Function]map[*types.Var]bool
